@@ -143,7 +143,7 @@ class C04(Prop):
         except Exception:
             res.excluded = "cannot-build"
             return res
-        for x in case["instances"]:
+        for x in GW.instances_of(case):
             res.evals += 1
             try:
                 a = outcome(lambda: v.is_valid(copy.deepcopy(x)))
